@@ -84,7 +84,78 @@ var (
 // whose shortest-qualifying-prefix outcome is the observed one?  failed: the selector returned
 // an error (observed outcome "no qualifying prefix"); otherwise gotMask/gotN describe the
 // returned coins as a set of list positions.
-func c19MatchesSomeOrder(keys, values []int64, target, minChange int64, maxInputs int, failed bool, gotMask uint, gotN int) bool {
+func c19MatchesSomeOrder(keys, values []int64, target, minChange int64, maxInputs int, failed bool, gotIDs []int) bool {
+	// Fast path (any list length): when coins with equal keys also have equal values, every descending
+	// order has the same sequence of values, hence the same shortest qualifying prefix length k; the
+	// orders differ only in WHICH of the coins tied at the boundary fall inside the prefix, and every
+	// such choice is realised by some order.  The observed outcome matches some order iff it has k
+	// coins whose keys, as a multiset, are the k largest keys.
+	uniform := true
+	valOfKey := map[int64]int64{}
+	for i, k := range keys {
+		if v, ok := valOfKey[k]; ok && v != values[i] {
+			uniform = false
+			break
+		}
+		valOfKey[k] = values[i]
+	}
+	if uniform && len(keys) <= 5 {
+		// on short lists both deciders run and must agree (the enumeration is the definition)
+		fast := c19FastOrder(keys, values, target, minChange, maxInputs, failed, gotIDs)
+		slow := c19EnumOrder(keys, values, target, minChange, maxInputs, failed, gotIDs)
+		if fast != slow {
+			panic(fmt.Sprintf("c19: tie-aware decider disagrees with the enumeration of tie orders: keys=%v values=%v target=%d minChange=%d maxInputs=%d failed=%v got=%v fast=%v slow=%v", keys, values, target, minChange, maxInputs, failed, gotIDs, fast, slow))
+		}
+		return slow
+	}
+	if uniform {
+		return c19FastOrder(keys, values, target, minChange, maxInputs, failed, gotIDs)
+	}
+	return c19EnumOrder(keys, values, target, minChange, maxInputs, failed, gotIDs)
+}
+
+func c19FastOrder(keys, values []int64, target, minChange int64, maxInputs int, failed bool, gotIDs []int) bool {
+	gotN := len(gotIDs)
+	{
+		idx := make([]int, len(keys))
+		for i := range idx {
+			idx[i] = i
+		}
+		sort.SliceStable(idx, func(a, b int) bool { return keys[idx[a]] > keys[idx[b]] })
+		vals := make([]int64, len(keys))
+		for i, j := range idx {
+			vals[i] = values[j]
+		}
+		k := ref.ShortestQualifyingPrefix(vals, target, minChange, maxInputs)
+		if failed {
+			return k == 0
+		}
+		if k == 0 || k != gotN {
+			return false
+		}
+		gk := make([]int64, 0, gotN)
+		for _, j := range gotIDs {
+			gk = append(gk, keys[j])
+		}
+		sort.Slice(gk, func(a, b int) bool { return gk[a] > gk[b] })
+		for i := 0; i < k; i++ {
+			if gk[i] != keys[idx[i]] {
+				return false
+			}
+		}
+		return true
+	}
+}
+
+func c19EnumOrder(keys, values []int64, target, minChange int64, maxInputs int, failed bool, gotIDs []int) bool {
+	gotN := len(gotIDs)
+	if len(keys) > 64 {
+		panic("c19: tie enumeration needs <= 64 coins")
+	}
+	gotMask := uint(0)
+	for _, j := range gotIDs {
+		gotMask |= 1 << uint(j)
+	}
 	found := false
 	vals := make([]int64, len(keys))
 	ref.EachDescendingOrder(keys, func(p []int) bool {
@@ -104,6 +175,19 @@ func c19MatchesSomeOrder(keys, values []int64, target, minChange int64, maxInput
 		return !found
 	})
 	return found
+}
+
+// c19IsPrefix: the selected positions are exactly 0..k-1
+func c19IsPrefix(seen []bool, count, k int) bool {
+	if count != k {
+		return false
+	}
+	for i := 0; i < k; i++ {
+		if !seen[i] {
+			return false
+		}
+	}
+	return true
 }
 
 func c19EvalSel(w *mc.W, cas c19Sel) {
@@ -169,11 +253,11 @@ func c19EvalSel(w *mc.W, cas c19Sel) {
 				c.Violate("minindex/fails-although-a-prefix-qualifies", "sel", cas, fmt.Sprintf("prefix of length %d qualifies; err=%v", k, err))
 			}
 		case "minnumber":
-			if !c19MatchesSomeOrder(values, values, cas.Target, cas.MinChange, cas.MaxInputs, true, 0, 0) {
+			if !c19MatchesSomeOrder(values, values, cas.Target, cas.MinChange, cas.MaxInputs, true, nil) {
 				c.Violate("minnumber/fails-although-every-descending-order-has-a-qualifying-prefix", "sel", cas, fmt.Sprintf("err=%v", err))
 			}
 		case "maxvalueage":
-			if !c19MatchesSomeOrder(ages, values, cas.Target, cas.MinChange, cas.MaxInputs, true, 0, 0) {
+			if !c19MatchesSomeOrder(ages, values, cas.Target, cas.MinChange, cas.MaxInputs, true, nil) {
 				c.Violate("maxvalueage/fails-although-every-descending-order-has-a-qualifying-prefix", "sel", cas, fmt.Sprintf("err=%v", err))
 			}
 		}
@@ -187,7 +271,7 @@ func c19EvalSel(w *mc.W, cas c19Sel) {
 	}
 	// identity: every returned coin is one of the offered objects, none twice
 	ids := make([]int, 0, len(got))
-	mask := uint(0)
+	seen := make([]bool, n)
 	total, totalAge := int64(0), int64(0)
 	for pos, g := range got {
 		k, ok := g.(*c19Coin)
@@ -195,11 +279,11 @@ func c19EvalSel(w *mc.W, cas c19Sel) {
 			c.Violate(s+"/coin-not-from-list", "sel", cas, fmt.Sprintf("returned coin #%d is not one of the offered objects", pos))
 			return
 		}
-		if mask&(1<<uint(k.id)) != 0 {
+		if seen[k.id] {
 			c.Violate(s+"/duplicate-coin", "sel", cas, fmt.Sprintf("offered coin #%d returned twice (selection %v + %d)", k.id, ids, k.id))
 			return
 		}
-		mask |= 1 << uint(k.id)
+		seen[k.id] = true
 		ids = append(ids, k.id)
 		total += k.value
 		totalAge += k.value * k.confs
@@ -225,15 +309,15 @@ func c19EvalSel(w *mc.W, cas c19Sel) {
 		k := ref.ShortestQualifyingPrefix(values, cas.Target, cas.MinChange, cas.MaxInputs)
 		if k == 0 {
 			c.Violate("minindex/succeeds-although-no-prefix-qualifies", "sel", cas, desc)
-		} else if mask != uint(1)<<uint(k)-1 {
+		} else if !c19IsPrefix(seen, len(ids), k) {
 			c.Violate("minindex/not-shortest-qualifying-prefix", "sel", cas, fmt.Sprintf("%s; shortest qualifying prefix has length %d", desc, k))
 		}
 	case "minnumber":
-		if !c19MatchesSomeOrder(values, values, cas.Target, cas.MinChange, cas.MaxInputs, false, mask, len(ids)) {
+		if !c19MatchesSomeOrder(values, values, cas.Target, cas.MinChange, cas.MaxInputs, false, ids) {
 			c.Violate("minnumber/not-shortest-prefix-of-any-descending-order", "sel", cas, desc)
 		}
 	case "maxvalueage":
-		if !c19MatchesSomeOrder(ages, values, cas.Target, cas.MinChange, cas.MaxInputs, false, mask, len(ids)) {
+		if !c19MatchesSomeOrder(ages, values, cas.Target, cas.MinChange, cas.MaxInputs, false, ids) {
 			c.Violate("maxvalueage/not-shortest-prefix-of-any-descending-order", "sel", cas, desc)
 		}
 	case "minpriority":
@@ -782,6 +866,93 @@ func runC19(c *mc.Ctx) {
 				c19EvalSel(w, cs[i])
 			})
 		}
+	}
+	// lists of 31..100 coins made of two or three value classes with LONG RUNS OF TIES, in every
+	// arrangement of the runs, with MaxInputs from 1 to beyond a quarter of the list: a selector that
+	// narrows a long list to "the MaxInputs best candidates" before sorting must still behave as the
+	// shortest qualifying prefix of a descending order (ties: any order; the oracle accepts exactly
+	// the outcomes some tie order produces)
+	{
+		var cs []c19Sel
+		for _, n := range mc.Pick(c, []int{31, 32, 40, 65}, []int{31, 32, 33, 40, 48, 64, 65, 100}) {
+			for _, hi := range []int{1, 3, n / 8, n / 4} {
+				if hi < 1 {
+					continue
+				}
+				for _, cls := range [][3][2]int64{ // {low, high, mid} coin kinds (value, confirmations)
+					{{10, 1}, {50, 1}, {10, 1}}, // two value classes
+					{{10, 9}, {50, 1}, {10, 9}}, // value-age order is the reverse of the value order
+					{{10, 1}, {50, 1}, {20, 1}}, // three classes
+					{{10, 1}, {50, 0}, {20, 2}}, // zero-confirmation large coins
+				} {
+					for _, arr := range []string{"low-high", "high-low", "low-high-low", "alternate", "low-mid-high"} {
+						list := make([][2]int64, 0, n)
+						switch arr {
+						case "low-high":
+							for i := 0; i < n-hi; i++ {
+								list = append(list, cls[0])
+							}
+							for i := 0; i < hi; i++ {
+								list = append(list, cls[1])
+							}
+						case "high-low":
+							for i := 0; i < hi; i++ {
+								list = append(list, cls[1])
+							}
+							for i := 0; i < n-hi; i++ {
+								list = append(list, cls[0])
+							}
+						case "low-high-low":
+							for i := 0; i < n; i++ {
+								if i >= n/2 && i < n/2+hi {
+									list = append(list, cls[1])
+								} else {
+									list = append(list, cls[0])
+								}
+							}
+						case "alternate":
+							put := 0
+							for i := 0; i < n; i++ {
+								if i%(n/hi) == n/hi-1 && put < hi {
+									list = append(list, cls[1])
+									put++
+								} else {
+									list = append(list, cls[0])
+								}
+							}
+						case "low-mid-high":
+							for i := 0; i < n; i++ {
+								switch {
+								case i >= n-hi:
+									list = append(list, cls[1])
+								case i >= n-2*hi-1:
+									list = append(list, cls[2])
+								default:
+									list = append(list, cls[0])
+								}
+							}
+						}
+						x, y := cls[0][0], cls[1][0]
+						H := int64(hi)
+						for _, mi := range []int{1, 2, 3, 4, n/4 - 1, n / 4, n/4 + 1, n / 2, n} {
+							if mi < 1 {
+								continue
+							}
+							for _, tgt := range []int64{1, x, x + 1, 3 * x, y, y + 1, H * y, H*y + 1, H*y + x, int64(mi) * x, int64(mi)*x + 1} {
+								for _, sel := range c19Selectors {
+									cs = append(cs, c19Sel{Sel: sel, Coins: list, Target: tgt, MaxInputs: mi, MinChange: 0, MinAvg: 1})
+								}
+							}
+						}
+					}
+				}
+			}
+		}
+		c.Space("long coin lists (31..100 coins) with runs of tied coins in every arrangement x MaxInputs 1..n/4+1, n/2, n x boundary targets x selectors", int64(len(cs)))
+		c.ParFor(int64(len(cs)), func(w *mc.W, i int64) {
+			w.State()
+			c19EvalSel(w, cs[i])
+		})
 	}
 	// the same selector value used twice: every list of length <= 3, boundary targets, after an
 	// earlier call on another list (its reverse plus a larger coin; a single coin)
